@@ -54,7 +54,7 @@ MINIMUMS = {
 
 FNS = [kinds.node, kinds.node2, kinds.two, kinds.three, kinds.Base, kinds.Mid, kinds.Other,
        kinds.target3, kinds.DC, dup1.same, dup2.same, kinds.WithMethods.smake,
-       kinds.Float, kinds.Dict, kinds.DCFrozen]
+       kinds.Float, kinds.Dict, kinds.DCFrozen, kinds.ret_point, kinds.ret_int, kinds.ret_color]
 POS_FNS = [kinds.posnode, kinds.PosInit, sigs.g_ab_c_va, sigs.g_a1_b2_va_k_vk]
 LEAVES = [0, 1, -7, 2**70, 2.5, -0.5, 1e300, 'a', 'name with "quotes" and \\ backslash', '', None,
           True, False, (1, 2), (), ('x', (3, 4)), b'bytes\xff', kinds.Color.RED, kinds.Level.HIGH,
@@ -147,6 +147,13 @@ def make_config(rng):
       shared_set = {7, 8}
       for n, k in rng.sample(slots, 2):
         n.kw[k] = gen.Leaf(shared_set)
+  if rng.random() < 0.04:
+    # a functools.partial as a leaf value (a supported value of the expression converter)
+    slots = [(n, k) for n in gen.walk(root) if isinstance(n, gen.B) and n.btype != 'TaggedValue'
+             for k, c in n.kw.items() if isinstance(c, gen.Leaf) and k != 'uid']
+    if slots:
+      n, k = rng.choice(slots)
+      n.kw[k] = gen.Leaf(functools.partial(kinds.two, 1, y='p'))
   return root
 
 
@@ -416,7 +423,8 @@ def _rm_odd_leaves(root):
   ch = False
   for n in gen.walk(root):
     if (isinstance(n, gen.Leaf) and not isinstance(n.value, (int, str)) and n.value is not None
-        and not _is_special(n.value) and n.value not in (dup1.Thing, dup2.Thing, dup1.same, dup2.same)):
+        and not _is_special(n.value) and not isinstance(n.value, functools.partial)
+        and n.value not in (dup1.Thing, dup2.Thing, dup1.same, dup2.same)):
       n.value = 3
       ch = True
   return ch
@@ -434,6 +442,8 @@ def present_features(root, opt):
   nodes = gen.walk(root)
   if any(isinstance(n, gen.Leaf) and _is_special(n.value) for n in nodes):
     f.append('special-leaf')
+  if any(isinstance(n, gen.Leaf) and isinstance(n.value, functools.partial) for n in nodes):
+    f.append('functools-partial-leaf')
   if any(isinstance(n, gen.Seq) and n.typ in ('point', 'pair') for n in nodes):
     f.append('named-tuple')
   if any(isinstance(n, gen.B) and n.btype == 'TaggedValue' for n in nodes):
@@ -475,10 +485,20 @@ def present_features(root, opt):
   if _container_candidates(root):
     f.append('containers')
   if any(isinstance(n, gen.Leaf) and not isinstance(n.value, (int, str)) and n.value is not None
-         and not _is_special(n.value) and n.value not in (dup1.Thing, dup2.Thing, dup1.same, dup2.same)
+         and not _is_special(n.value) and not isinstance(n.value, functools.partial)
+        and n.value not in (dup1.Thing, dup2.Thing, dup1.same, dup2.same)
          for n in nodes):
     f.append('non-basic-leaves')
   return f
+
+
+def _rm_partial_leaf(root):
+  ch = False
+  for n in gen.walk(root):
+    if isinstance(n, gen.Leaf) and isinstance(n.value, functools.partial):
+      n.value = 3
+      ch = True
+  return ch
 
 
 def _rm_builtin_callable(root):
@@ -513,6 +533,7 @@ def _rm_builtin_names(root):
 
 
 CONFIG_FEATURES = [
+    ('functools-partial-leaf', _rm_partial_leaf),
     ('builtin-callable', _rm_builtin_callable), ('builtin-names', _rm_builtin_names),
     ('frozen-dataclass-callable', _rm_frozen),
     ('special-leaf', _rm_special), ('named-tuple', _rm_named_tuple), ('tagged-value', _rm_tagged_value),
@@ -625,7 +646,17 @@ def run_main(spec, acc):
               opt['complexity'] = rng.choice([0, 1, 2, 3, 4, 5])
               acc.obs('with_complexity')
           elif bnodes and rng.random() < 0.35:
-            opt['sub_uids'] = [n.uid for n in rng.sample(bnodes, rng.randint(1, min(2, len(bnodes))))]
+            pool = bnodes
+            if rng.random() < 0.3:
+              # a list/tuple/dict that holds Buildables may be a sub-fixture as well
+              pool = bnodes + [n for n in gen.walk(root)
+                               if ((isinstance(n, gen.Seq) and n.typ in ('list', 'tuple')) or
+                                   (isinstance(n, gen.Map) and n.typ == 'dict'))
+                               and any(isinstance(x, gen.B) for x in gen.walk(n))]
+            picked = rng.sample(pool, rng.randint(1, min(2, len(pool))))
+            opt['sub_uids'] = [n.uid for n in picked]
+            if any(not isinstance(n, gen.B) for n in picked):
+              acc.obs('with_container_sub_fixture')
             acc.obs('with_sub_fixtures')
             if opt['complexity'] is None and rng.random() < 0.5:
               opt['complexity'] = rng.choice([0, 1, 2, 3])     # sub-fixtures x variable extraction
